@@ -149,6 +149,16 @@ VARIANTS = [
     dict(radii=[1, 2], kernel="flat", orient=["after", "before"], normwin=False, mix=[2.0, 1.0]),
     dict(radii=[1, 2], kernel="harmonic", orient=["directional", "after"], normwin=True, mix=[2.0, 1.0]),
     dict(radii=[2, 1], kernel="geometric", orient=["before", "directional"], normwin=True),
+    # every remaining ordered pair of orientations, and triples: the column blocks (two for a directional window, one
+    # otherwise) and their labels pre_<window>_<token> / post_<window>_<token> are numbered by USER-LEVEL window
+    dict(radii=[1, 2], kernel="flat", orient=["directional", "before"], normwin=False),
+    dict(radii=[2, 1], kernel="flat", orient=["before", "after"], normwin=False, mix=[1.0, 3.0]),
+    dict(radii=[1, 2], kernel="harmonic", orient=["after", "after"], normwin=False),
+    dict(radii=[1, 2], kernel="flat", orient=["before", "before"], normwin=True),
+    dict(radii=[1, 2], kernel="flat", orient=["directional", "directional"], normwin=False),
+    dict(radii=[2, 1], kernel="harmonic", orient=["after", "directional"], normwin=False),
+    dict(radii=[1, 2, 1], kernel="flat", orient=["directional", "before", "after"], normwin=False, mix=[1.0, 2.0, 4.0]),
+    dict(radii=[2, 1, 2], kernel="flat", orient=["after", "directional", "before"], normwin=True),
 ]
 TIMED_CFGS = [c for c in product_dicts(radii=[[1], [2]], kernel=["flat", "geometric"],
                                        orient=["after", "directional"], normwin=[False, True])] + [
